@@ -450,6 +450,73 @@ def run_param_histories(acc, depth, first):
     acc.sample({"clause": "activation-history", "history": [["to", "g1", 103], ["with", "g1", None]], "expected": [5 * 103, 5 * 211]})
 
 
+# ----------------------------------------------------------------------------- a context object edited between activations
+
+
+def run_mutation(acc):
+    """a Context is a live object: a redefinition or a rule added to it AFTER it was activated (and left) is in force at
+    the next activation, in every activation form and whatever form was used before — as it is in a registry that sees
+    the edited context for the first time"""
+    pint = core.boot()
+    forms = ("to", "with", "enable")
+
+    def build():
+        ureg = regs.tiny(PH_LINES, non_int_type="Fraction")
+        c = pint.Context("m1")
+        c.add_transformation("[E]", "[D]", lambda ureg, x, **kw: x * 5 * ureg.Quantity(1, "ud/ue"))
+        c.redefine("kz = 40 * ue")
+        ureg.add_context(c)
+        return ureg, c
+
+    def observe(ureg, form):
+        Q = ureg.Quantity
+        if form == "to":
+            return [call(lambda: Q(1, "kz").to("ue", "m1").magnitude), call(lambda: Q(1, "kzz").to("ue", "m1").magnitude), call(lambda: Q(1, "ue").to("ud", "m1").magnitude), call(lambda: Q(1, "ue").to("ub", "m1").magnitude)]
+        if form == "with":
+            with ureg.context("m1"):
+                return [call(lambda: Q(1, "kz").to("ue").magnitude), call(lambda: Q(1, "kzz").to("ue").magnitude), call(lambda: Q(1, "ue").to("ud").magnitude), call(lambda: Q(1, "ue").to("ub").magnitude)]
+        ureg.enable_contexts("m1")
+        try:
+            return [call(lambda: Q(1, "kz").to("ue").magnitude), call(lambda: Q(1, "kzz").to("ue").magnitude), call(lambda: Q(1, "ue").to("ud").magnitude), call(lambda: Q(1, "ue").to("ub").magnitude)]
+        finally:
+            ureg.disable_contexts()
+
+    edits = {
+        "redefine kz again": (lambda c: c.redefine("kz = 70 * ue"), {0: 70, 1: 140}),
+        "add a rule": (lambda c: c.add_transformation("[E]", "[B]", lambda ureg, x, **kw: x * 13 * ureg.Quantity(1, "ub/ue")), {3: 13}),
+        "redefine another unit": (lambda c: c.redefine("kzz = 3 * kz"), {1: None}),
+    }
+    base = [("ok", 40), ("ok", 80), ("ok", 5), ("exc", "DimensionalityError")]
+    for f1, f2 in itertools.product(forms, repeat=2):
+        for order in itertools.permutations(edits):
+            ureg, c = build()
+            want = list(base)
+            hist = [f"activate ({f1})"]
+            o = observe(ureg, f1)
+            acc.ev()
+            if o != want:
+                acc.violation(["context-edited", f1, "first-activation-wrong", ""], {"history": hist}, want, o)
+                continue
+            for ename in order:
+                fn, eff = edits[ename]
+                fn(c)
+                hist.append(ename)
+                for k, v in eff.items():
+                    want[k] = ("ok", v)
+                # kzz = 2 kz unless redefined to 3 kz
+                kzv = want[0][1]
+                want[1] = ("ok", (3 if "redefine another unit" in hist else 2) * kzv)
+                acc.ev()
+                acc.nt(("mutation", f1, f2, order, len(hist)))
+                hist.append(f"activate ({f2})")
+                o = observe(ureg, f2)
+                if o != want:
+                    acc.violation(["context-edited", f2, "edit-of-the-context-object-not-in-force-at-the-next-activation", ename], {"history": list(hist)}, [list(w) for w in want], [list(x) for x in o])
+                    break
+    acc.outcome("context-edited")
+    acc.sample({"clause": "context-edited", "history": ["activate (to)", "redefine kz again", "activate (with)"], "expected": "1 kz == 70 ue inside the context"})
+
+
 # ----------------------------------------------------------------------------- redefinitions
 
 
@@ -614,7 +681,7 @@ def shards(tier, seed):
     if tier == "thorough":
         for b in range(8):
             out.append(("stacks", 3, 1, b, 8))
-    out += [("params",), ("redefs",), ("bundled",)]
+    out += [("params",), ("redefs",), ("bundled",), ("mutation",)]
     for ev in ph_events():
         out.append(("param-hist", 3 if tier == "quick" else 4, list(ev)))
     return out
@@ -630,6 +697,8 @@ def run_shard(acc, shard, tier, seed):
         run_params(acc)
     elif k == "param-hist":
         run_param_histories(acc, shard[1], tuple(shard[2]))
+    elif k == "mutation":
+        run_mutation(acc)
     elif k == "redefs":
         run_redefs(acc)
     elif k == "bundled":
@@ -650,6 +719,8 @@ def replay(rec):
         if rec.get("tier") == "thorough" and tuple(site) not in {tuple(v["site"]) for v in acc.violations}:
             for b in range(8):
                 run_stacks(acc, 3, 1, b, 8)
+    elif site[0] == "context-edited":
+        run_mutation(acc)
     elif site[0] == "parameters":
         run_params(acc)
     elif site[0] == "activation-history":
